@@ -71,8 +71,8 @@ type mzInfo struct{ f *mzFile }
 
 func (i mzInfo) Name() string { return filepath.Base(i.f.Path()) }
 func (i mzInfo) Size() int64 {
-	if i.f.Size == "big" {
-		return bigSize
+	if n := classSize(i.f.Size); n > 0 {
+		return n
 	}
 	return int64(len(i.f.content()))
 }
@@ -98,6 +98,19 @@ func (f *mzFile) Lstat() (os.FileInfo, error) {
 	return mzInfo{f}, nil
 }
 
+// thirdSize: 170 MiB - two such files fit into an archive (500 MiB), three do not
+const thirdSize = 170 << 20
+
+func classSize(class string) int64 {
+	switch class {
+	case "big":
+		return bigSize
+	case "third":
+		return thirdSize
+	}
+	return 0
+}
+
 type zeroReader struct{ n int64 }
 
 func (z *zeroReader) Read(p []byte) (int, error) {
@@ -118,8 +131,8 @@ func (f *mzFile) Open() (io.ReadCloser, error) {
 	if f.Mode != "regular" {
 		return nil, errors.New("not a regular file")
 	}
-	if f.Size == "big" {
-		return io.NopCloser(&zeroReader{bigSize}), nil
+	if n := classSize(f.Size); n > 0 {
+		return io.NopCloser(&zeroReader{n}), nil
 	}
 	return io.NopCloser(bytes.NewReader(f.content())), nil
 }
@@ -183,7 +196,7 @@ func (w *modzipWorld) Check(c *core.Case) ([]core.Violation, bool) {
 
 type zipRun struct {
 	valid, omitted, invalid []string
-	cfErrOK                 bool
+	cfErrOK, sizeErr        bool
 	createErr               error
 	flags                   []core.Violation // self-consistency violations (round trip, directory side, hashes)
 	desc                    string
@@ -205,6 +218,7 @@ func runZipFiles(c *core.Case, fsl []*mzFile) zipRun {
 	cf, cfErr := mzip.CheckFiles(files)
 	r.valid, r.omitted, r.invalid = nzs(cf.Valid), nzs(errPaths(cf.Omitted)), nzs(errPaths(cf.Invalid))
 	r.cfErrOK = (cfErr == nil) == (len(r.invalid) == 0 && cf.SizeError == nil)
+	r.sizeErr = cf.SizeError != nil
 	// C17: a directory tree of regular files gives the same result as the list of its files
 	if treeable(fsl) {
 		r.flags = append(r.flags, dirVersusList(c, fsl, r.desc)...)
@@ -269,8 +283,8 @@ func runZipFiles(c *core.Case, fsl []*mzFile) zipRun {
 		for _, v := range gotV {
 			if f.Path() == v && f.Mode == "regular" {
 				if _, dup := want[v]; !dup {
-					if f.Size == "big" {
-						want[v] = make([]byte, bigSize)
+					if n := classSize(f.Size); n > 0 {
+						want[v] = make([]byte, n)
 					} else {
 						want[v] = f.content()
 					}
@@ -325,6 +339,7 @@ func checkZipFiles(c *core.Case) ([]core.Violation, bool) {
 	var exp struct {
 		Valid, Omitted, Invalid [][]int
 		Createok                bool
+		Sizeerr                 bool
 		Ge124                   bool
 	}
 	json.Unmarshal(c.Exp, &exp)
@@ -341,9 +356,17 @@ func checkZipFiles(c *core.Case) ([]core.Violation, bool) {
 	if !r.cfErrOK {
 		add("c17:err-inconsistent", "CheckFiles error does not match its report (invalid %q)", r.invalid)
 	}
+	if r.sizeErr != exp.Sizeerr {
+		add("c05:size-verdict", "CheckFiles reports a size error: %v; the files that belong in the archive %s 500 MiB together", r.sizeErr, map[bool]string{true: "exceed", false: "stay within"}[exp.Sizeerr])
+	}
 	// C05: creation succeeds exactly when nothing is invalid
 	if (r.createErr == nil) != exp.Createok {
 		add("c05:create-verdict", "Create: err=%v, the file check reports invalid=%q (creation should succeed iff none)", r.createErr, wantI)
+	}
+	// C05: what a created archive holds (and extracts to, compared above with the list the code reports valid) is the files that
+	// belong in it by the documented rules
+	if r.createErr == nil && !core.Eq(r.valid, nzs(wantV)) {
+		add("c05:archive-content", "the created archive holds %q; the files that belong in it are %q", r.valid, wantV)
 	}
 	vs = append(vs, r.flags...)
 	return vs, len(in.Files) > 1
@@ -405,7 +428,7 @@ func treeable(fs []*mzFile) bool {
 	seen := map[string]bool{}
 	for _, f := range fs {
 		p := f.Path()
-		if f.Mode != "regular" || f.LstatErr || f.Size == "big" || p == "" || strings.HasPrefix(p, "/") || strings.Contains(p, "\x00") {
+		if f.Mode != "regular" || f.LstatErr || classSize(f.Size) > 0 || p == "" || strings.HasPrefix(p, "/") || strings.Contains(p, "\x00") {
 			return false
 		}
 		elems := strings.Split(p, "/")
